@@ -519,6 +519,15 @@ func cEvs(l []Ev) string {
 	return vh.List(o)
 }
 
+// sameCtr: does the wire pair (low word, optional gigawords) spell the 64-bit value v?
+func sameCtr(v, lo uint64, gw *uint64) bool {
+	g := uint64(0)
+	if gw != nil {
+		g = *gw
+	}
+	return lo+g<<32 == v
+}
+
 type flaky struct{}
 
 // runOnce executes the case on the real code; it panics with flaky{} when a request the server
@@ -729,8 +738,10 @@ func runOnce(d Desc, tmp string, strict bool) vh.Case {
 					if used[i] || p.St != e.W.St || p.S != e.W.S {
 						continue
 					}
-					lo, gw := p.In&0xFFFFFFFF, p.In>>32
-					if e.W.St != 1 && (e.W.InLo != lo || (e.W.InGw != nil && *e.W.InGw != gw)) {
+					if e.W.St != 1 && !(sameCtr(p.In, e.W.InLo, e.W.InGw) && sameCtr(p.Out, e.W.OutLo, e.W.OutGw)) {
+						continue
+					}
+					if e.W.St == 2 && e.W.Cause != p.Cause {
 						continue
 					}
 					used[i] = true
